@@ -115,7 +115,8 @@ def _pcm_lemma(job):
           'from engine import loader\nenv = loader.RealEnv()\n'
           'import numpy as np\na = env.mod("audio_io")\n'
           'y = np.arange(-32768, 32768, dtype=np.int16)\n'
-          'f = a.int16_samples_to_float32(y)\nz = a.float_samples_to_int16(f)\n'
+          'f0 = a.int16_samples_to_float32(y)\nf = f0.copy()\n'
+          'z = a.float_samples_to_int16(f0)\n'
           'pts=[-32768,-32767,-12345,-1,0,1,2,3,5,7,100,12345,16383,16384,32766,32767]\n'
           'print(json.dumps({"all_equal": bool((z == y).all()), "dtype": str(f.dtype),'
           ' "mid": [float(f[p+32768]).hex() for p in pts], "pts": pts,'
@@ -402,7 +403,52 @@ def h_stereo(c):
   c.cover('an empty channel', min(nl, nr) == 0 and n > 0)
 
 
-HARNESSES = {'h_crop': h_crop, 'h_repeat': h_repeat, 'lemma_pcm': h_pcm_witness,
+def h_reuse(c):
+  """The helpers return new arrays and leave the ones they are given as they
+  were: a signal that has been converted, cropped, repeated or packed can be
+  used again and gives the same result (a second conversion of the same float
+  signal is what samples_to_wav_data at a second rate does)."""
+  a = c.mod('audio_io')
+  np = c.np
+  n = c.params['n']
+  vals, arr = _samples(c, n)
+  if c.mode == 'sym':
+    arr.dtype = np.dtype(np.int16)
+
+  def elems(x):
+    return list(x.data) if hasattr(x, 'data') else [v.item() for v in x]
+
+  def same(xs, ys):
+    return len(xs) == len(ys) and bool(
+        c.And([c.eq(p, q) for p, q in zip(xs, ys)] or [True]))
+
+  f = a.int16_samples_to_float32(arr)
+  c.check(same(elems(arr), vals), 'int16 -> float leaves its input unchanged')
+  fv = elems(f)
+  z1 = elems(a.float_samples_to_int16(f))
+  c.check(same(elems(f), fv), 'float -> int16 leaves its input unchanged')
+  z2 = elems(a.float_samples_to_int16(f))
+  c.check(same(z1, z2), 'converting the same float signal twice gives the '
+          'same samples')
+  c.check(same(z1, vals), 'PCM -> float -> PCM returns the samples (values as '
+          'reals; binary32 rounding is lemma L-C20-1)')
+  rate = c.params.get('rate', 2)
+  a.crop_samples(arr, rate, 0.5, 1.0)
+  a.repeat_samples_to_duration(arr, rate, (n + 1.0) / rate)
+  other = np.array(list(vals[:1]), dtype=np.int16)
+  if c.mode == 'sym':
+    if not hasattr(other, 'data'):
+      other = np.Arr(list(vals[:1]))
+    other.dtype = np.dtype(np.int16)
+  try:  # (AudioIODataTypeError derives from BaseException)
+    a.make_stereo(arr, other)
+  except a.AudioIODataTypeError:
+    c.check(False, 'no error for two channels of one data type')
+  c.check(same(elems(arr), vals) and same(elems(other), vals[:1]),
+          'crop / repeat / make_stereo leave their inputs unchanged')
+
+
+HARNESSES = {'h_crop': h_crop, 'h_reuse': h_reuse, 'h_repeat': h_repeat, 'lemma_pcm': h_pcm_witness,
              'lemma_length': h_length_witness,
              'h_stereo': h_stereo}
 FUNCS = {'lemma_pcm': _pcm_lemma, 'lemma_length': _length_lemma}
@@ -424,6 +470,8 @@ def jobs(tier):
   add('h_repeat', n=3, rate=4, max_s=2)
   add('h_stereo', M=3)
   add('h_stereo', M=2, mismatch=True)
+  add('h_reuse', n=2)
+  add('h_reuse', n=3, rate=4)
   if deep:
     add('h_crop', n=6, rate=4, budget=900)
     add('h_repeat', n=4, rate=4, max_s=4, budget=900)
